@@ -15,7 +15,7 @@ RULE = ('well-formed BED3 / BED6 / FASTQ / two-line FASTA files of 1..5 records 
         'prepend mode, real plain / .gz file through bnp.open}; plus unviolated controls. non-trivial = violation not in the first '
         'chunk (the line offset bookkeeping matters)')
 EXHAUSTIVE = {'quick': False, 'thorough': False}
-TIE = 'correspondence (reader model + per-chunk parse model evaluated in Coq on the same bytes, chunk size and mode)'
+TIE = 'translator+correspondence (Gen/C01.v regenerated from parser.py, one_line_buffer.py, fastq_buffer.py, delimited_buffers.py, npdataclassreader.py; Bridge/C01.v; reader state machine + cut functions evaluated in Coq on the same bytes and chunk size)'
 ASSUMPTIONS = ['the violating characters are chosen outside the characters the alphabet tables accept by the (separately recorded) C06 defect',
                'column-count violations are decided by the specification only (error required), the model does not cover reshape failures']
 PARTIAL = []
